@@ -27,6 +27,7 @@ import uuid
 import warnings
 import weakref
 from contextlib import AbstractContextManager, contextmanager
+from copy import deepcopy
 from gc import collect
 from getpass import getuser
 from io import BytesIO
@@ -290,6 +291,9 @@ class Workspace(AbstractContextManager):
             entity_kwargs["uid"] = entity.uid
 
         entity_kwargs["parent"] = parent
+
+        if isinstance(entity_kwargs.get("metadata"), dict):
+            entity_kwargs["metadata"] = deepcopy(entity_kwargs["metadata"])
 
         entity_type = type(entity)
         if isinstance(entity, Data):
